@@ -67,8 +67,8 @@ func c34(c *Ctx) {
 		if len(wv) != 2 {
 			c.Undecided("anchor", wr+": frame header", fmt.Sprintf("%d writeVarint calls, expected type and length", len(wv)))
 		} else {
-			typ := Term(wv[0].(ssa.CallInstruction).Common().Args[1])
-			size := Term(wv[1].(ssa.CallInstruction).Common().Args[1])
+			typ := Term(BaselineArgs(wv[0].(ssa.CallInstruction).Common())[1])
+			size := Term(BaselineArgs(wv[1].(ssa.CallInstruction).Common())[1])
 			c.Check(typ == fmt.Sprint(fData), "frame-type", wr+": body bytes are framed as DATA", wv[0].Pos(), "", "frame type written is "+typ)
 			c.Reject(wr, out, "$r.remain >= 0", size+" > $r.remain")
 			c.ArgFrom(wr, Calls(ST+"writeVarint").ArgIs(1, size), 1, "len() of the chunks", IsCallTo("builtin:len"))
